@@ -242,6 +242,12 @@ def case_model(case):
             new = f"{pos[6]}_undefined"
             set_position(md, pos, new)
             expected.append(expect(pos[4], pos[5], new))
+    elif mut["kind"] == "truncate":
+        # the reference names the *group* of the parameter (its label cut at the last dot): no parameter has that label
+        pos = positions(md0)[mut["position"]]
+        new = pos[6].rsplit(".", 1)[0]
+        set_position(md, pos, new)
+        expected.append(expect("param", None, new))
     elif mut["kind"] == "remove_item":
         section, key = mut["section"], mut["key"]
         del md[section][key]
@@ -291,11 +297,23 @@ def clean_model_usable(base, model, md, params):
     from glotaran.project import Scheme
 
     vs = []
+    # history: a fill of the same model object that fails (one parameter missing) comes first
+    some = [p.label for p in params.all()]
+    for drop in (some[0], some[-1]):
+        incomplete = B.make_parameters({p.label: float(p.value) for p in params.all() if p.label != drop})
+        for label in model.dataset:
+            try:
+                fill_item(model.dataset[label], model, incomplete)
+            except Exception:  # noqa: BLE001, S110
+                pass
     for label in model.dataset:
         try:
-            fill_item(model.dataset[label], model, params)
+            filled = fill_item(model.dataset[label], model, params)
         except Exception as e:  # noqa: BLE001
             vs.append(V("valid-model-cannot-be-filled", dataset=label, exc=repr(e)[:200]))
+            continue
+        if any(isinstance(m, str) for m in filled.megacomplex):
+            vs.append(V("fill-after-a-failed-fill-returns-unfilled-items", dataset=label))
     gen = model.generate_parameters()
     gi = [i.to_string() for i in model.get_issues(parameters=gen)]
     miss = [i for i in gi if i.startswith("Missing parameter")]
@@ -332,8 +350,9 @@ def clean_model_usable(base, model, md, params):
     except (KeyError, LookupError) as e:
         vs.append(V("valid-model-evaluation-lookup-error", exc=repr(e)[:200]))
     except Exception as e:  # noqa: BLE001
-        if "ParameterNotFound" in type(e).__name__:
-            vs.append(V("valid-model-evaluation-lookup-error", exc=repr(e)[:200]))
+        # all base models evaluate with the enumerated values (the relabelled twins compare their objectives)
+        vs.append(V("valid-model-evaluation-lookup-error" if "ParameterNotFound" in type(e).__name__ else "valid-model-cannot-be-evaluated",
+                    exc=repr(e)[:200]))  # fmt: skip
     return vs
 
 
@@ -410,6 +429,9 @@ def run(run: core.Run):
                     cases.append({"base": base, "mutation": {"kind": "remove_item", "section": section, "key": key}})
         for lab in all_parameter_labels(md):
             cases.append({"base": base, "mutation": {"kind": "remove_param", "label": lab}})
+        for i, ps in enumerate(pos):
+            if ps[4] == "param" and "." in str(ps[6]):
+                cases.append({"base": base, "mutation": {"kind": "truncate", "position": i}})
     run.map("model", cases)
     rules = []
     for order in itertools.permutations(["m1", "m3", "m3b"]):
